@@ -272,6 +272,78 @@ theorem lsq_variants_exact (kind : FitKind) (pts : List ((ℝ × ℝ) × ℝ)) (
 example (mx my b x y : ℝ) : surfaceF .plane [mx, my, b] (x, y) = mx * x + my * y + b := by
   simp [surfaceF]
 
+/-- the rank condition on the 3 × 3 corner block: a quadratic that vanishes at the nine points
+`{0,1,2}²` is the zero quadratic -/
+theorem quad_unique (a0 a1 a2 a3 a4 a5 : ℝ)
+    (h : ∀ i j : ℕ, i < 3 → j < 3 →
+      a0 + a1 * (i : ℝ) + a3 * (j : ℝ) + a2 * ((i : ℝ) * (i : ℝ)) + a4 * ((j : ℝ) * (j : ℝ)) + a5 * (i : ℝ) * (j : ℝ) = 0) :
+    a0 = 0 ∧ a1 = 0 ∧ a2 = 0 ∧ a3 = 0 ∧ a4 = 0 ∧ a5 = 0 := by
+  have e00 := h 0 0 (by norm_num) (by norm_num)
+  have e10 := h 1 0 (by norm_num) (by norm_num)
+  have e20 := h 2 0 (by norm_num) (by norm_num)
+  have e01 := h 0 1 (by norm_num) (by norm_num)
+  have e02 := h 0 2 (by norm_num) (by norm_num)
+  have e11 := h 1 1 (by norm_num) (by norm_num)
+  norm_num at e00 e10 e20 e01 e02 e11
+  refine ⟨by linarith, by linarith, by linarith, by linarith, by linarith, by linarith⟩
+
+/-- **Parabola (quadratic surface) fit on a scan raster**: the rank condition for the six
+monomials `1, x, y, x², y², xy` is that no non-zero quadratic vanishes on the positions; it holds
+on every raster with at least 3 rows and 3 columns (already the 3 × 3 corner block determines the
+six coefficients).  Hence, for origins lying exactly on a quadratic surface `θ₀`, every
+least-squares minimiser `θ` of `fit_origin(..., "parabola")` has the coefficients of `θ₀` and
+returns that surface — at the scan positions and everywhere else. -/
+theorem parabola_exact_on_raster (nx ny : Nat) (hx : 3 ≤ nx) (hy : 3 ≤ ny) (θ θ₀ : List ℝ)
+    (hmin : ∀ θ', ssr (surfaceF .parabola) θ
+        ((rasterPositions nx ny : List (ℝ × ℝ)).map (fun p => (p, surfaceF .parabola θ₀ p)))
+      ≤ ssr (surfaceF .parabola) θ'
+        ((rasterPositions nx ny : List (ℝ × ℝ)).map (fun p => (p, surfaceF .parabola θ₀ p)))) :
+    (∀ k, k < 6 → θ.getD k 0 = θ₀.getD k 0) ∧
+      ∀ x y : ℝ, surfaceF .parabola θ (x, y) = surfaceF .parabola θ₀ (x, y) := by
+  have hfit := lsq_variants_exact .parabola _ θ θ₀
+    (by intro p hp; obtain ⟨q, _, rfl⟩ := List.mem_map.mp hp; rfl) hmin
+  have hat : ∀ a b : Nat, a < 3 → b < 3 →
+      surfaceF .parabola θ ((a : ℝ), (b : ℝ)) = surfaceF .parabola θ₀ ((a : ℝ), (b : ℝ)) := by
+    intro a b ha hb
+    exact hfit _ (List.mem_map.mpr ⟨_, mem_raster nx ny a b (by omega) (by omega), rfl⟩)
+  have hq : ∀ i j : ℕ, i < 3 → j < 3 →
+      (θ.getD 0 0 - θ₀.getD 0 0) + (θ.getD 1 0 - θ₀.getD 1 0) * (i : ℝ) + (θ.getD 3 0 - θ₀.getD 3 0) * (j : ℝ)
+        + (θ.getD 2 0 - θ₀.getD 2 0) * ((i : ℝ) * (i : ℝ)) + (θ.getD 4 0 - θ₀.getD 4 0) * ((j : ℝ) * (j : ℝ))
+        + (θ.getD 5 0 - θ₀.getD 5 0) * (i : ℝ) * (j : ℝ) = 0 := by
+    intro i j hi hj
+    have h := hat i j hi hj
+    rw [parabola_eval, parabola_eval] at h
+    linear_combination h
+  obtain ⟨h0, h1, h2, h3, h4, h5⟩ := quad_unique _ _ _ _ _ _ hq
+  have g0 : θ.getD 0 0 = θ₀.getD 0 0 := by linarith
+  have g1 : θ.getD 1 0 = θ₀.getD 1 0 := by linarith
+  have g2 : θ.getD 2 0 = θ₀.getD 2 0 := by linarith
+  have g3 : θ.getD 3 0 = θ₀.getD 3 0 := by linarith
+  have g4 : θ.getD 4 0 = θ₀.getD 4 0 := by linarith
+  have g5 : θ.getD 5 0 = θ₀.getD 5 0 := by linarith
+  constructor
+  · intro k hk
+    have : k = 0 ∨ k = 1 ∨ k = 2 ∨ k = 3 ∨ k = 4 ∨ k = 5 := by omega
+    rcases this with rfl | rfl | rfl | rfl | rfl | rfl <;> assumption
+  · intro x y
+    rw [parabola_eval, parabola_eval, g0, g1, g2, g3, g4, g5]
+
+/-- **… and on a degenerate raster the fit is not determined**: on a 2 × 2 scan `x` and `x²`
+coincide at every position (both are least-squares minimisers for data `z = x`) but differ away
+from the scan — what `curve_fit` returns there depends on its starting point, only the values at
+the scan positions are fixed (`lsq_variants_exact`). -/
+theorem parabola_degenerate_raster_counterexample :
+    (∀ p ∈ (rasterPositions 2 2 : List (ℝ × ℝ)),
+      surfaceF .parabola [0, 1, 0, 0, 0, 0] p = surfaceF .parabola [0, 0, 1, 0, 0, 0] p) ∧
+    surfaceF .parabola [0, 1, 0, 0, 0, 0] ((2 : ℝ), (0 : ℝ)) ≠ surfaceF .parabola [0, 0, 1, 0, 0, 0] ((2 : ℝ), (0 : ℝ)) := by
+  constructor
+  · intro p hp
+    simp only [rasterPositions, List.range, List.range.loop, List.flatMap_cons, List.flatMap_nil, List.map_cons,
+      List.map_nil, List.append_nil, List.cons_append, List.nil_append, List.mem_cons, List.not_mem_nil, or_false,
+      NumReal.ofNat_eq] at hp
+    rcases hp with rfl | rfl | rfl | rfl <;> (rw [parabola_eval, parabola_eval]; norm_num)
+  · rw [parabola_eval, parabola_eval]; norm_num
+
 /-! ### 3. integer shift = circular roll -/
 
 /-- **Integer shift**: for a detector of at least 2 × 2 pixels, an integer fitted origin
@@ -310,5 +382,193 @@ theorem shift_batch_invariant {R : Type} [Num R] [HasFloor R] (b : Nat) (hb : 0 
   exact scatter_loop b hb t3.length _
 
 example : rollNeg 2 3 1 2 [[(1 : Rat), 2, 3], [4, 5, 6]] = [[6, 4, 5], [3, 1, 2]] := by rfl
+
+/-- the statement covers every integer origin — negative ones and ones beyond the far edge wrap
+around with the floored modulus (not the sign-keeping `fmod`) — and every integer target: an
+origin `(-1, -4)` moved to the corner of a 3 × 5 detector reads entry `[i][j]` from
+`I[(i - 1) mod 3][(j - 4) mod 5]`, e.g. `[0][0]` from `I[2][1]`; an origin `(7, 9)` moved to the
+centre `(1, 2)` reads `[0][0]` from `I[0][2]`. -/
+theorem shift_negative_and_far_origins (I : Pattern ℝ) :
+    shiftOriginTo (((0 : ℤ) : ℝ), ((0 : ℤ) : ℝ)) 3 5 (((-1 : ℤ) : ℝ), ((-4 : ℤ) : ℝ)) I = rollNeg 3 5 (-1) (-4) I ∧
+    shiftOriginTo (((1 : ℤ) : ℝ), ((2 : ℤ) : ℝ)) 3 5 (((7 : ℤ) : ℝ), ((9 : ℤ) : ℝ)) I = rollNeg 3 5 6 7 I ∧
+    (((Int.ofNat 0 + (-1 : ℤ)) % Int.ofNat 3).toNat = 2 ∧ ((Int.ofNat 0 + (-4 : ℤ)) % Int.ofNat 5).toNat = 1) ∧
+    (((Int.ofNat 0 + (6 : ℤ)) % Int.ofNat 3).toNat = 0 ∧ ((Int.ofNat 0 + (7 : ℤ)) % Int.ofNat 5).toNat = 2) := by
+  refine ⟨?_, ?_, by decide, by decide⟩
+  · have := shift_int_roll 3 5 (by norm_num) (by norm_num) (-1) (-4) 0 0 I
+    simpa using this
+  · have := shift_int_roll 3 5 (by norm_num) (by norm_num) 7 9 1 2 I
+    simpa using this
+
+/-- **Sub-pixel shifts are NOT intensity conserving** (counterexample kept visible): the code
+wraps the sampling coordinate but samples with `padding_mode="zeros"`, so the bilinear partner of
+the last row / column is read as 0 instead of the first one.  Exact-carrier run of the model: the
+2 × 3 pattern `[[1,2,3],[4,5,6]]` (sum 21) shifted by half a pixel has sum 18.  A periodic
+bilinear shift (convex combination of the four neighbouring rolls) would conserve the sum; the
+property only claims integer shifts, where `shift_int_roll` applies. -/
+theorem subpixel_shift_not_conservative_counterexample :
+    sum2 (shiftOriginTo ((0 : Rat), (0 : Rat)) 2 3 ((1 / 2 : Rat), (0 : Rat)) [[1, 2, 3], [4, 5, 6]]) = 18 ∧
+      sum2 ([[1, 2, 3], [4, 5, 6]] : Pattern Rat) = 21 := by
+  decide +kernel
+
+/-! ### 3b. translation covariance: the link between estimating and shifting -/
+
+/-- **Translation covariance** (ℝ): moving a (masked) pattern down by `a` rows and right by `b`
+columns without wrap-around moves its centre of mass by exactly `(a, b)` — what makes "estimate
+the origin, then shift it to the corner" consistent: the centre of mass of the shifted pattern is
+the old one minus the shift. -/
+theorem com_translation_covariant (a b : ℕ) (I : Pattern ℝ) (hT : total I ≠ 0) :
+    comSpec (padShift a b I) = ((comSpec I).1 + (a : ℝ), (comSpec I).2 + (b : ℝ)) := by
+  have hpad : padShift a b I = List.replicate a [] ++ I.map (fun row => List.replicate b (0 : ℝ) ++ row) := by
+    unfold padShift; simp [NumReal.zero_eq]
+  have htot : total (padShift a b I) = total I := by
+    rw [hpad]; unfold total
+    rw [List.map_append, List.sum_append, List.map_map]
+    have h1 : ((List.replicate a ([] : List ℝ)).map List.sum).sum = 0 := by
+      induction a with
+      | zero => simp
+      | succ a ih => simpa [List.replicate_succ] using ih
+    rw [h1, zero_add]
+    congr 1
+    apply List.map_congr_left
+    intro row _
+    simp only [Function.comp_def]
+    exact sum_replicate_zero_append b row
+  have hrow : rowMoment (padShift a b I) = rowMoment I + (a : ℝ) * total I := by
+    rw [hpad]; unfold rowMoment total
+    rw [List.zipIdx_append, List.map_append, List.sum_append]
+    have h1 : (((List.replicate a ([] : List ℝ)).zipIdx).map (fun p => (p.2 : ℝ) * p.1.sum)).sum = 0 := by
+      apply List.sum_eq_zero
+      intro v hv
+      obtain ⟨p, hp, rfl⟩ := List.mem_map.mp hv
+      have hm := List.mem_zipIdx hp
+      have : p.1 = [] := List.eq_of_mem_replicate (hm.2.2 ▸ List.getElem_mem _)
+      simp [this]
+    rw [h1, zero_add, List.length_replicate, Nat.zero_add]
+    have h2 := zipIdx_moment (fun r : List ℝ => r.sum) (I.map (fun row => List.replicate b (0 : ℝ) ++ row)) a
+    rw [h2, List.map_map]
+    have e1 : ((I.map (fun row => List.replicate b (0 : ℝ) ++ row)).zipIdx.map (fun p => (p.2 : ℝ) * p.1.sum)).sum
+        = (I.zipIdx.map (fun p => (p.2 : ℝ) * p.1.sum)).sum := by
+      rw [List.zipIdx_map, List.map_map]
+      congr 1
+      apply List.map_congr_left
+      intro p _
+      simp only [Function.comp_def, Prod.map, id]
+      rw [sum_replicate_zero_append]
+    have e2 : (I.map ((fun r : List ℝ => r.sum) ∘ fun row => List.replicate b (0 : ℝ) ++ row)).sum = (I.map List.sum).sum := by
+      congr 1
+      apply List.map_congr_left
+      intro row _
+      simp only [Function.comp_def]
+      exact sum_replicate_zero_append b row
+    rw [e1, e2]
+  have hcol : colMoment (padShift a b I) = colMoment I + (b : ℝ) * total I := by
+    rw [hpad]; unfold colMoment total
+    rw [List.map_append, List.sum_append, List.map_map]
+    have h1 : ((List.replicate a ([] : List ℝ)).map (fun row => (row.zipIdx.map (fun p => (p.2 : ℝ) * p.1)).sum)).sum = 0 := by
+      apply List.sum_eq_zero
+      intro v hv
+      obtain ⟨r, hr, rfl⟩ := List.mem_map.mp hv
+      rw [List.eq_of_mem_replicate hr]; simp
+    rw [h1, zero_add]
+    have hper : ∀ row : List ℝ, ((List.replicate b (0 : ℝ) ++ row).zipIdx.map (fun p => (p.2 : ℝ) * p.1)).sum
+        = (row.zipIdx.map (fun p => (p.2 : ℝ) * p.1)).sum + (b : ℝ) * row.sum := by
+      intro row
+      rw [List.zipIdx_append, List.map_append, List.sum_append]
+      have hz : (((List.replicate b (0 : ℝ)).zipIdx).map (fun p => (p.2 : ℝ) * p.1)).sum = 0 := by
+        apply List.sum_eq_zero
+        intro v hv
+        obtain ⟨p, hp, rfl⟩ := List.mem_map.mp hv
+        have hm := List.mem_zipIdx hp
+        have : p.1 = 0 := List.eq_of_mem_replicate (hm.2.2 ▸ List.getElem_mem _)
+        simp [this]
+      rw [hz, zero_add, List.length_replicate, Nat.zero_add]
+      have := zipIdx_moment (fun v : ℝ => v) row b
+      simpa using this
+    rw [sum_map_add_mul (b : ℝ) _ _ I (fun row => by simp only [Function.comp_def]; exact hper row)]
+  unfold comSpec
+  rw [htot, hrow, hcol]
+  refine Prod.ext ?_ ?_
+  · simp only; field_simp
+  · simp only; field_simp
+
+/-- a concrete instance: `[[1, 3]]` has its centre of mass at column 3/4; moved down 2 rows and
+right 1 column it is at row 2, column 7/4 -/
+example : comSpec (padShift 2 1 [[(1 : ℝ), 3]]) = (0 + 2, 3 / 4 + 1) := by
+  rw [com_translation_covariant 2 1 _ (by norm_num [total])]
+  simp [comSpec, rowMoment, colMoment, total, List.zipIdx]
+  norm_num
+
+/-! ### 4. input forms of the origin setters -/
+
+/-- **The flat `(N, 2)` form and the `(Rx, Ry, 2)` scan-grid form denote the same origins**, for
+every scan shape — including the degenerate `1 × n`, `n × 1`, `2 × n`, `n × 2`, `2 × 2` — : both
+are stored as the row-major list of the grid, and pattern `(i, j)` of the grid is entry
+`i * Ry + j` of the stored list; a single pair is broadcast to every pattern. -/
+theorem origin_forms_agree {α : Type} (sr sc : Nat) (g : List (List (α × α))) (hr : g.length = sr)
+    (hc : ∀ row ∈ g, row.length = sc) :
+    storeOrigins (sr * sc) (.grid g) = some g.flatten ∧
+    storeOrigins (sr * sc) (.flat g.flatten) = some g.flatten ∧
+    (∀ i j, j < sc → g.flatten[i * sc + j]? = (g[i]?).bind (fun row => row[j]?)) ∧
+    (∀ p : α × α, storeOrigins (sr * sc) (.pair p) = some (List.replicate (sr * sc) p)) := by
+  have hlen : ∀ (g : List (List (α × α))), (∀ row ∈ g, row.length = sc) → g.flatten.length = g.length * sc := by
+    intro g
+    induction g with
+    | nil => intro _; simp
+    | cons r rs ih =>
+      intro h
+      rw [List.flatten_cons, List.length_append, ih (fun row hrow => h row (List.mem_cons_of_mem _ hrow)),
+        h r List.mem_cons_self, List.length_cons]
+      ring
+  have hstore : expandPairs (sr * sc) g.flatten = some g.flatten := by
+    have hl := hlen g hc
+    rw [hr] at hl
+    unfold expandPairs
+    split
+    · rename_i p heq
+      rw [heq] at hl
+      simp only [List.length_cons, List.length_nil] at hl
+      rw [← hl]; simp [heq]
+    · rw [if_pos hl]
+  refine ⟨hstore, hstore, ?_, ?_⟩
+  · clear hstore hr
+    induction g with
+    | nil => intro i j _; simp
+    | cons r rs ih =>
+      intro i j hj
+      have hrl : r.length = sc := hc r List.mem_cons_self
+      have ih' := ih (fun row hrow => hc row (List.mem_cons_of_mem _ hrow))
+      cases i with
+      | zero =>
+        simp only [Nat.zero_mul, Nat.zero_add, List.flatten_cons, List.getElem?_cons_zero, Option.bind_some]
+        rw [List.getElem?_append_left (by omega)]
+      | succ i =>
+        simp only [List.flatten_cons, List.getElem?_cons_succ]
+        rw [List.getElem?_append_right (by rw [hrl, Nat.succ_mul]; omega)]
+        have e : (i + 1) * sc + j - r.length = i * sc + j := by rw [hrl, Nat.succ_mul]; omega
+        rw [e]
+        exact ih' i j hj
+  · intro p
+    unfold storeOrigins viewPairs expandPairs
+    by_cases h1 : sr * sc = 1
+    · simp [h1]
+    · simp [h1]
+
+/-- **The layout test `ndim == 3 and shape[0] == 2` is too weak** (kept as a warning; the library
+does not use it): a pattern-major grid of a scan with exactly two rows — here 2 × 2 and 2 × 3 —
+would be taken for a component-first array and the stored origins scrambled. -/
+theorem weak_layout_test_counterexample :
+    storeOriginsWeakTest 4 (.grid [[((0 : Nat), 1), (2, 3)], [(4, 5), (6, 7)]])
+        ≠ storeOrigins 4 (.grid [[((0 : Nat), 1), (2, 3)], [(4, 5), (6, 7)]]) ∧
+    storeOriginsWeakTest 6 (.grid [[((0 : Nat), 1), (2, 3), (4, 5)], [(6, 7), (8, 9), (10, 11)]])
+        = some [(0, 6), (1, 7), (2, 8), (3, 9), (4, 10), (5, 11)] ∧
+    storeOrigins 6 (.grid [[((0 : Nat), 1), (2, 3), (4, 5)], [(6, 7), (8, 9), (10, 11)]])
+        = some [(0, 1), (2, 3), (4, 5), (6, 7), (8, 9), (10, 11)] ∧
+    storeOriginsWeakTest 6 (.grid [[((0 : Nat), 1), (2, 3)], [(4, 5), (6, 7)], [(8, 9), (10, 11)]])
+        = storeOrigins 6 (.grid [[((0 : Nat), 1), (2, 3)], [(4, 5), (6, 7)], [(8, 9), (10, 11)]]) := by
+  decide
+
+example : storeOrigins 6 (.grid [[((0 : Nat), 1), (2, 3), (4, 5)], [(6, 7), (8, 9), (10, 11)]])
+    = storeOrigins 6 (.flat [((0 : Nat), 1), (2, 3), (4, 5), (6, 7), (8, 9), (10, 11)]) := by decide
+example : storeOrigins 3 (.flat [((0 : Nat), 1), (2, 3)]) = none := by decide
 
 end QuantemModel.Props.C18
